@@ -14,6 +14,7 @@ import (
 	"io"
 	"math/big"
 	"os"
+	"runtime/debug"
 	"testing"
 	"time"
 
@@ -25,6 +26,7 @@ import (
 )
 
 func TestMain(m *testing.M) {
+	debug.SetGCPercent(400) // math/big garbage dominates; memory use stays small
 	h.Observe("build", buildTag)
 	h.Observe("GODEBUG", os.Getenv("GODEBUG"))
 	h.Main(m, ref.SelfTestSM3, ref.SelfTestSM2, selfTestDER, selfTestModel)
